@@ -27,6 +27,7 @@ const (
 	sWith
 	sCall
 	sPad // id comment-only lines: no effect, but the next statement is that much further down
+	sWide // one line that compiles to about 3*id bytes of code: no effect, but the next instruction is that much further on
 )
 
 type handler struct {
@@ -122,6 +123,12 @@ func (r *c02r) stmt(ind int, s *stmt) {
 		for i := 0; i < s.id; i++ {
 			r.emit(ind, "#")
 		}
+	case sWide:
+		var el []string
+		for i := 0; i < s.id; i++ {
+			el = append(el, itoa(i%7))
+		}
+		r.emit(ind, "_w = ["+strings.Join(el, ", ")+"]")
 	case sLog:
 		r.nid++
 		s.id = r.nid
@@ -322,7 +329,7 @@ func (m *c02m) block(ss []*stmt, fn string) compl {
 func (m *c02m) exec(s *stmt, fn string) compl {
 	m.steps++
 	switch s.k {
-	case sPad:
+	case sPad, sWide:
 		return compl{}
 	case sLog:
 		m.log = append(m.log, itoa(s.id))
@@ -761,6 +768,75 @@ func c02Run(rc *core.RunCtx) {
 			}
 		}
 	}
+	// the complete try statement - body, handler, else clause and finally clause at once - is
+	// bigger than the node budget of the plans below: here it is, inside each kind of loop, inside
+	// a loop in a with block, and in a called function inside a loop, with every leaf in every clause
+	rc.Part = "fulltry"
+	{
+		leaves := []func() *stmt{
+			func() *stmt { return &stmt{k: sLog} }, func() *stmt { return &stmt{k: sRaise, exc: "KeyError"} }, func() *stmt { return &stmt{k: sRaise, exc: "ValueError"} },
+			func() *stmt { return &stmt{k: sReturn} }, func() *stmt { return &stmt{k: sBreak} }, func() *stmt { return &stmt{k: sContinue} },
+		}
+		wraps := []func(t *stmt) []*stmt{
+			func(t *stmt) []*stmt { return []*stmt{{k: sFor, body: []*stmt{t, {k: sLog}}}, {k: sLog}} },
+			func(t *stmt) []*stmt { return []*stmt{{k: sWhile, body: []*stmt{t, {k: sLog}}}, {k: sLog}} },
+			func(t *stmt) []*stmt { return []*stmt{{k: sFor, body: []*stmt{t}, orelse: []*stmt{{k: sLog}}, hasElse: true}} },
+			func(t *stmt) []*stmt {
+				return []*stmt{{k: sFor, body: []*stmt{{k: sWith, mode: "false", body: []*stmt{t}}, {k: sLog}}}, {k: sLog}}
+			},
+			func(t *stmt) []*stmt {
+				return []*stmt{{k: sFor, body: []*stmt{{k: sTry, body: []*stmt{t}, hasFin: true, fin: []*stmt{{k: sLog}}}}}, {k: sLog}}
+			},
+		}
+		for wi, wrap := range wraps {
+			for _, hcls := range [][]string{{"KeyError"}, {"LookupError"}, nil} {
+				for a := range leaves {
+					for b := range leaves {
+						for e := range leaves {
+							for f := range leaves {
+								if rc.Expired() || rc.Done() {
+									return
+								}
+								if !rc.Take() {
+									continue
+								}
+								t := &stmt{k: sTry, body: []*stmt{leaves[a]()}, hs: []handler{{classes: hcls, body: []*stmt{leaves[b]()}}},
+									orelse: []*stmt{leaves[e]()}, hasElse: true, fin: []*stmt{leaves[f]()}, hasFin: true}
+								c02One(c, wrap(t), 9, 80+wi)
+							}
+						}
+					}
+				}
+			}
+		}
+	}
+	// lines whose code is longer than one byte-offset entry of the line table can express (255
+	// bytes, and 2 x, 3 x that): statements after them must still be attributed to their own lines
+	rc.Part = "widelines"
+	for _, N := range []int{80, 84, 85, 86, 90, 169, 170, 171, 255, 256, 300} {
+		wide := func() *stmt { return &stmt{k: sWide, id: N} }
+		raise := func() *stmt { return &stmt{k: sRaise, exc: "KeyError"} }
+		lg := func() *stmt { return &stmt{k: sLog} }
+		shapes := [][]*stmt{
+			{wide(), raise()},
+			{lg(), wide(), lg(), raise()},
+			{wide(), lg(), wide(), raise()},
+			{wide(), {k: sCall, body: []*stmt{wide(), lg(), raise()}}},
+			{{k: sCall, body: []*stmt{lg(), wide(), raise()}}, wide()},
+			{{k: sTry, body: []*stmt{wide(), raise()}, hasFin: true, fin: []*stmt{wide(), lg()}}},
+			{{k: sTry, body: []*stmt{raise()}, hs: []handler{{classes: []string{"KeyError"}, body: []*stmt{wide(), {k: sRaise, exc: "ZeroDivisionError"}}}}}},
+			{{k: sFor, body: []*stmt{wide(), lg()}}, wide(), raise()},
+		}
+		for si, sh := range shapes {
+			if rc.Expired() || rc.Done() {
+				return
+			}
+			if !rc.Take() {
+				continue
+			}
+			c02One(c, cloneStmts(sh), 120+si, 91)
+		}
+	}
 	for pi, pl := range plans {
 		rc.Part = fmt.Sprintf("plan%d", pi)
 		g := &c02gen{rc: rc, maxDepth: pl.depth, excs: pl.excs, hspecs: pl.hspecs, withCall: pl.call, moreModes: pi == 0}
@@ -940,7 +1016,7 @@ func init() {
 		ID:    "C02",
 		Level: "model_checking",
 		Rule: "every statement tree within a node budget (quick 4-5, thorough 5-7) and nesting depth 2-3 over {log, raise E, bare raise, return, break, continue, if/else, for/while (2 iterations; first plan: also while with the constant conditions 0, False, None, '', 1, True) with else, try with 8 handler layouts (class, tuple of classes, bare, `as`, two ordered handlers) x else x finally, with (3 __exit__ behaviours, an __enter__ that raises, and in the first plan also __exit__ returning 1 / 0 / None and five two-manager statements), nested function call}, " +
-			"blocks of 1-2 statements, every leaf at every position; one statement per line. Oracle: a structural operational semantics giving the path log (incl. __enter__/__exit__), the compile-time rejection (break/continue outside loop, continue in finally), the uncaught exception type, the returned value and the traceback (function, line) of the raising statement and of every active call. Part linegaps: 9 shapes (raise at the start of a function, after a log, after two gaps, in a nested call, in try/finally, in a handler, in a with block, after a loop) with runs of P comment-only lines before the statements and between the definition and the call, P in {1, 254..257, 509..512, 764..766, 1019..1021, 2041}: same oracle, in particular the traceback lines. Non-trivial: the expected log is non-empty or the program must be rejected.",
+			"blocks of 1-2 statements, every leaf at every position; one statement per line. Oracle: a structural operational semantics giving the path log (incl. __enter__/__exit__), the compile-time rejection (break/continue outside loop, continue in finally), the uncaught exception type, the returned value and the traceback (function, line) of the raising statement and of every active call. Part fulltry: the complete try statement (body, handler for KeyError / LookupError / bare, else, finally) in five loop wrappers (for, while, for-else, for+with, for+try/finally) with each of 6 leaves in each of the 4 clauses (19440 programs). Part widelines: 8 shapes with one-line list displays of 80..300 constants (240..900 bytes of code on one line) before the raising statement, in callers and callees: traceback lines judged. Part linegaps: 9 shapes (raise at the start of a function, after a log, after two gaps, in a nested call, in try/finally, in a handler, in a with block, after a loop) with runs of P comment-only lines before the statements and between the definition and the call, P in {1, 254..257, 509..512, 764..766, 1019..1021, 2041}: same oracle, in particular the traceback lines. Non-trivial: the expected log is non-empty or the program must be rejected.",
 		Run:         c02Run,
 		Assumptions: []string{"tracebacks: an extra entry at a bare `raise` line is accepted (3.4 adds it, later versions do not)", "user-defined exception classes are not in the alphabet"},
 		Explanation: "exhaustive enumeration of bounded statement trees executed on the real pipeline and compared with a reference operational semantics (path trace, exception, traceback)",
